@@ -3,7 +3,7 @@
    Model/Engines.v (entry points, .aux files, READ) over Model/Bst.v (the interpreter) and
    Model/Citations.v (citation resolution). *)
 From Pybtex Require Import Base.Prelude Base.PyChar Base.PyStr Model.BibtexStr Model.Wrap Model.Bst Model.Citations Model.Engines
-  Proofs.EnginesSort Proofs.Engines Proofs.EnginesExec Proofs.EnginesMeta Proofs.EnginesOrder Proofs.EnginesProbe Proofs.EnginesAux Proofs.EnginesItems.
+  Proofs.EnginesSort Proofs.Engines Proofs.EnginesExec Proofs.EnginesMeta Proofs.EnginesOrder Proofs.EnginesProbe Proofs.EnginesAux Proofs.EnginesItems Proofs.EnginesCli Proofs.EnginesTable.
 From Pybtex Require Model.Aux.
 From Coq Require Import Permutation Sorted.
 
@@ -68,6 +68,50 @@ Theorem aux_equals_explicit_real_reader : forall fmt_name cw fuel fs afs aux sty
   end.
 Proof. exact make_bibliography_real_reader. Qed.
 Print Assumptions aux_equals_explicit_real_reader.
+
+(* The command line `pybtex OPTIONS FILE` (options -s/--style, -f, --min-crossrefs, --terse, each possibly several
+   times: the last occurrence counts) is make_bibliography on FILE -- with '.aux' appended exactly when
+   posixpath.splitext does not already give that extension -- with the style, format and min_crossrefs the options
+   spell (default min_crossrefs 2) ... *)
+Theorem command_line_is_make_bibliography : forall fmt_name cw fuel fs opts filename,
+  command_line_argv fmt_name cw fuel fs opts filename =
+  make_bibliography fmt_name cw fuel fs (cli_aux_name filename) (cli_style opts) (cli_format opts)
+                    (match cli_min_crossrefs opts with Some m => m | None => 2%Z end).
+Proof. exact command_line_argv_is. Qed.
+Print Assumptions command_line_is_make_bibliography.
+Theorem cli_aux_name_appends_unless_aux : forall f,
+  f = splitext_root f ++ splitext_ext f /\
+  (splitext_ext f = s_aux -> cli_aux_name f = f) /\ (splitext_ext f <> s_aux -> cli_aux_name f = f ++ s_aux).
+Proof. exact cli_aux_name_full_spec. Qed.
+Print Assumptions cli_aux_name_appends_unless_aux.
+Theorem cli_last_option_counts : forall opts rest,
+  (forall s, cli_style rest = None -> cli_style (opts ++ OptStyle s :: rest) = Some s) /\
+  (forall f, cli_format rest = None -> cli_format (opts ++ OptFormat f :: rest) = Some f) /\
+  (forall m, cli_min_crossrefs rest = None -> cli_min_crossrefs (opts ++ OptMinCrossrefs m :: rest) = Some m) /\
+  ((forall s, ~ In (OptStyle s) opts) -> cli_style opts = None).
+Proof. exact cli_last_option_lemma. Qed.
+Print Assumptions cli_last_option_counts.
+(* ... hence the explicit engine call; in particular with `-s S` as the last style option the style handed to
+   format_from_files is S itself, whatever characters it contains (the clause the seeded defect C06n broke:
+   'house.sorted' must not become 'house') *)
+Theorem command_line_style_handed_on_unchanged : forall fmt_name cw fuel fs opts rest s filename ad data,
+  cli_style rest = None ->
+  let o := opts ++ OptStyle s :: rest in
+  let aux := cli_aux_name filename in
+  let m := match cli_min_crossrefs o with Some m => m | None => 2%Z end in
+  aux_parse_file aux_depth fs aux = Ok ad -> ax_data ad = Some data ->
+  let fmt := match cli_format o with Some f => f | None => 0 end in
+  match format_from_files fmt_name cw fuel fs (map (fun n => BName (n ++ suffix_of fmt)) data) s
+                          (Some (ax_cites ad)) (cli_format o) m None false with
+  | Ok r => exists bbl, r = mkOut fs (Some bbl) (o_reports r) /\
+            command_line_argv fmt_name cw fuel fs o filename =
+            Ok (mkOut (fs_write fs (splitext_root aux ++ s_bbl) bbl) None (ax_reports ad + o_reports r))
+  | PyErr c l => command_line_argv fmt_name cw fuel fs o filename = PyErr c l
+  | Crash => command_line_argv fmt_name cw fuel fs o filename = Crash
+  | OutOfFuel => command_line_argv fmt_name cw fuel fs o filename = OutOfFuel
+  end.
+Proof. exact command_line_style_unchanged. Qed.
+Print Assumptions command_line_style_handed_on_unchanged.
 
 (* What an .aux file (without \@input) says: its citations are the comma-separated pieces of its
    \citation lines, in order; its style / database names those of the FIRST \bibstyle / \bibdata line. *)
@@ -227,6 +271,20 @@ Theorem style_code_is_stable : forall fmt_name cw fuel st p st',
 Proof. exact exec_keeps. Qed.
 Print Assumptions style_code_is_stable.
 
+(* The program-to-variable-table link for items_per_citation: a FUNCTION command of the style program is what the
+   variable table holds under that name after any later commands (every declaring command goes through add_variable,
+   a bound name cannot be re-declared), and from the start of a run write$ / cite$ stay the built-ins -- so at the
+   final ITERATE the hypotheses `has_code` / `good_call` of items_per_citation can be read off the program text. *)
+Theorem function_stays_in_table : forall fmt_name cw fuel pre nm body post st0 st,
+  run fmt_name cw fuel st0 (pre ++ Cmd nm_function [[IId nm]; body] :: post) = Ok st ->
+  alookup str_eqb (lower nm) (st_vars st) = Some (OFun body).
+Proof. exact function_in_table. Qed.
+Print Assumptions function_stays_in_table.
+Theorem interpreter_has_its_code : forall fmt_name cw fuel cs cites reads st,
+  run fmt_name cw fuel (initial_state cites reads) cs = Ok st -> has_code (st_vars st) st.
+Proof. exact table_has_code. Qed.
+Print Assumptions interpreter_has_its_code.
+
 (* End to end for one concrete non-sorting style,
      ENTRY {title} {} {}  FUNCTION {f} { cite$ write$ newline$ }  READ  ITERATE {f} :
    whatever the bibliography files and the citation list, the run succeeds and the output consists of
@@ -320,6 +378,22 @@ Proof.
   right. exists (S_ "output.bibitem"). eexists. eexists. split; [reflexivity|]. split; [reflexivity|].
   left. exists [IId (S_ "newline$")], (S_ "\bibitem{"), [], [IStr (S_ "}"); IId (S_ "write$")]. split; reflexivity.
 Qed.
+
+(* a dotted style name on the command line: house.sorted.bst (reversed titles) is used, not house.bst (keys);
+   'doc' gets '.aux', 'my.doc.aux' keeps its name *)
+Definition ex_cli_fs : fsys :=
+  (S_ "house.sorted.bst", FBst ex_style2) :: (S_ "house.bst", FBst ex_style) ::
+  (S_ "my.doc.aux", FAux [S_ "\citation{a}"; S_ "\bibstyle{house}"; S_ "\bibdata{db}"]) :: ex_fs.
+Example command_line_dotted_style_example :
+  option_map written_text (match command_line_argv nofmt nocw 100 ex_cli_fs [OptStyle (S_ "house"); OptTerse; OptStyle (S_ "house.sorted")] (S_ "doc") with Ok o => Some o | _ => None end)
+    = Some [(S_ "doc.bbl", S_ "Ta
+Tb
+")] /\
+  option_map written_text (match command_line_argv nofmt nocw 100 ex_cli_fs [OptMinCrossrefs 1] (S_ "my.doc.aux") with Ok o => Some o | _ => None end)
+    = Some [(S_ "my.doc.bbl", S_ "a
+")] /\
+  cli_aux_name (S_ "doc") = S_ "doc.aux" /\ cli_aux_name (S_ "my.doc") = S_ "my.doc.aux" /\ cli_aux_name (S_ "my.doc.aux") = S_ "my.doc.aux".
+Proof. vm_compute. repeat split. Qed.
 
 Example uncited_example :
   never_wanted [nth 0 ex_db (mkB [] [] []); nth 2 ex_db (mkB [] [] [])] [S_ "b"; S_ "a"] (S_ "u") /\
